@@ -29,7 +29,7 @@ def make_graph(spec, fail=()):
     Returns (dsk, denote, counters)."""
     from dask._task_spec import Alias, DataNode, Task, TaskRef
 
-    names = [chr(ord("a") + i) for i in range(len(spec))]
+    names = [chr(ord("A") + i) if i >= 26 else chr(ord("a") + i) for i in range(len(spec))]
     runs = {}
     recv = {}
     denote = {}
@@ -48,7 +48,9 @@ def make_graph(spec, fail=()):
 
     for name, (kind, deps) in zip(names, spec):
         dn = [names[i] for i in deps]
-        if kind == "D":
+        if kind == "C":
+            denote[name] = ("ext", name)  # supplied through the caller's cache= mapping, not part of the graph
+        elif kind == "D":
             dsk[name] = DataNode(name, ("lit", name))
             denote[name] = ("lit", name)
         elif kind == "A":
@@ -72,7 +74,8 @@ def closure(dsk, keys):
         if k in seen:
             continue
         seen.add(k)
-        stack.extend(dsk[k].dependencies)
+        if k in dsk:
+            stack.extend(dsk[k].dependencies)
     return seen
 
 
@@ -85,7 +88,7 @@ def wf_clauses():
 def native_ns(dsk, denote, state, results, SUB):
     from dask._task_spec import DataNode
 
-    univ = list(dsk)
+    univ = sorted(set(dsk) | set(denote), key=str)
 
     def forall(f, *tys):
         n = f.__code__.co_argcount
@@ -98,7 +101,7 @@ def native_ns(dsk, denote, state, results, SUB):
     return {
         "state": state, "results": set(results), "dsk": dsk, "SUB": SUB,
         "forall": forall, "exists": exists,
-        "isdata": lambda k: isinstance(dsk[k], DataNode),
+        "isdata": lambda k: k not in dsk or isinstance(dsk[k], DataNode),
         "denote": lambda k: denote[k],
         "EMPTY": set(), "Key": "Key",
         "distinct": lambda s: len(set(s)) == len(s),
@@ -128,12 +131,15 @@ def run_one(spec, request, num_workers, chunksize, schedule, fail=(), check_inva
 
     dsk, denote, runs, recv = make_graph(spec, fail)
     flat = list(L.flatten(request)) if isinstance(request, list) else [request]
+    flat = [k for k in flat if not isinstance(k, list)]
     needed = closure(dsk, flat)
     from dask._task_spec import DataNode
 
     from dask._task_spec import Task as _Task
 
-    tasks_needed = {k for k in needed if isinstance(dsk[k], _Task)}  # aliases run no user function
+    tasks_needed = {k for k in needed if isinstance(dsk.get(k), _Task)}  # aliases run no user function
+    ext = {k: denote[k] for k in needed if k not in dsk}
+    user_cache = dict(ext) if ext else None
     pending = []
     choices = []
     events = []
@@ -182,7 +188,7 @@ def run_one(spec, request, num_workers, chunksize, schedule, fail=(), check_inva
         for dep in dsk[key].dependencies:
             if dep not in state["cache"]:
                 raise Violation("C03-not-released-early", f"dependency {dep!r} of starting task {key!r} is not in the cache")
-            if not isinstance(dsk[dep], DataNode) and dep not in state["finished"]:
+            if dep in dsk and not isinstance(dsk[dep], DataNode) and dep not in state["finished"]:
                 raise Violation("C02-deps-finished", f"task {key!r} started before its dependency {dep!r} finished")
 
     def cb_posttask(key, res, d, state, wid):
@@ -204,7 +210,7 @@ def run_one(spec, request, num_workers, chunksize, schedule, fail=(), check_inva
     outcome = None
     try:
         try:
-            res = L.get_async(submit, num_workers, dsk, request, callbacks=cbs, chunksize=chunksize)
+            res = L.get_async(submit, num_workers, dsk, request, callbacks=cbs, chunksize=chunksize, cache=user_cache)
             outcome = ("value", res)
         except FailingTask as e:
             outcome = ("raised", str(e))
@@ -309,8 +315,8 @@ def graph_specs(n, kinds=("T", "D")):
         new = []
         for s in specs:
             for kind in kinds:
-                if kind == "D":
-                    new.append(s + (("D", ()),))
+                if kind in ("D", "C"):
+                    new.append(s + ((kind, ()),))
                 elif kind == "A":
                     for d in range(i):
                         new.append(s + (("A", (d,)),))
@@ -329,6 +335,8 @@ def requests_for(n):
         for c in itertools.combinations(names, r):
             out.append(list(c) if len(c) > 1 else c[0])
     out.append([names[-1], [names[0], names[-1]]])
+    out.append([])
+    out.append([[], []])
     return out
 
 
@@ -337,14 +345,14 @@ def sweep(tier, seed=0, with_failures=True, time_budget=None):
     import time
 
     t0 = time.time()
-    budget = time_budget or (25 if tier == "quick" else 600)
+    budget = time_budget or {"quick": 25, "deep": 150}.get(tier, 600)
     nmax = 3 if tier == "quick" else 4
     configs = [(1, 1), (2, 1), (3, 2), (2, -1)] if tier == "quick" else [(1, 1), (2, 1), (3, 1), (2, 2), (3, 2), (8, 3), (1, -1), (2, -1), (3, -1)]
     cases = runs = 0
     fails = []
     sample = None
     for n in range(1, nmax + 1):
-        for spec in graph_specs(n, ("T", "D", "A") if n <= 3 else ("T", "D")):
+        for spec in graph_specs(n, ("T", "D", "A", "C") if n <= 3 else ("T", "D")):
             for req in requests_for(n):
                 for nw, cs in configs:
                     failsets = [()]
@@ -373,6 +381,75 @@ def sweep(tier, seed=0, with_failures=True, time_budget=None):
                     break
             if len(fails) >= 3 or time.time() - t0 > budget:
                 break
+    # wide graphs: many independent tasks feeding one reducer, saturating batches (fire_tasks arithmetic);
+    # layered variant a_i -> b_i: tasks become ready a few at a time, leaving partially filled batches in flight
+    import random as _random
+    rnd = _random.Random(seed)
+
+    def wide_specs():
+        for width in ((7, 12) if tier == "quick" else (5, 7, 9, 12, 16, 27)):
+            yield tuple(("T", ()) for _ in range(width)) + (("T", tuple(range(width))),)
+            half = width // 2 + 1
+            yield tuple(("T", ()) for _ in range(half)) + tuple(("T", (i,)) for i in range(half)) + (("T", tuple(range(half, 2 * half))),)
+
+    def forest_specs(count):
+        # random fan-out forests / DAGs with a final sink (tasks become ready in irregular bursts)
+        for _ in range(count):
+            n = rnd.randrange(8, 28)
+            nodes = []
+            for i in range(n):
+                if i < 3 or rnd.random() < 0.1:
+                    nodes.append(("T", ()))
+                elif rnd.random() < 0.8:
+                    nodes.append(("T", (rnd.randrange(0, i),)))
+                else:
+                    nodes.append(("T", tuple(sorted(rnd.sample(range(i), min(i, 2))))))
+            used = {d for _, ds in nodes for d in ds}
+            leaves = tuple(i for i in range(n) if i not in used)
+            yield tuple(nodes) + (("T", leaves),)
+
+    # random forests, many runs, outcome checks only (invariant checking off: ~2500 runs/s)
+    nforest = {"quick": 500, "deep": 2500}.get(tier, 5000)
+    for spec in forest_specs(nforest):
+        if len(fails) >= 3:
+            break
+        names_w = [chr(ord("A") + i) if i >= 26 else chr(ord("a") + i) for i in range(len(spec))]
+        for nw, cs in [(3, 2), (4, 2), (3, 3), (4, 3)]:
+            for _ in range(10):
+                cases += 1
+                sched = [rnd.randrange(0, 8) for _ in range(6 * len(spec))]
+                args = {"graph": spec, "request": names_w[-1], "num_workers": nw, "chunksize": cs, "failing": (), "schedule": sched}
+                try:
+                    run_one(spec, names_w[-1], nw, cs, sched, check_invariant=False)
+                    runs += 1
+                except Violation as v:
+                    fails.append(rtc.Failure("get_async", args, "ensures", v.clause, v.detail))
+                except Hang as h:
+                    fails.append(rtc.Failure("get_async", args, "timeout", "C04-never-hangs", str(h)))
+                except BaseException as e:  # noqa
+                    fails.append(rtc.Failure("get_async", args, "exception", type(e).__name__, repr(e)))
+    for spec in wide_specs():
+        if time.time() - t0 > budget * 1.5 or len(fails) >= 3:
+            break
+        names_w = [chr(ord("A") + i) if i >= 26 else chr(ord("a") + i) for i in range(len(spec))]
+        for nw, cs in [(3, 2), (4, 2), (3, 3), (2, 4), (4, 3)]:
+            for _ in range(6 if tier == "quick" else 60):
+                cases += 1
+                sched = [rnd.randrange(0, 8) for _ in range(6 * len(spec))]
+                args = {"graph": spec, "request": names_w[-1], "num_workers": nw, "chunksize": cs, "failing": (), "schedule": sched}
+                try:
+                    run_one(spec, names_w[-1], nw, cs, sched)
+                    runs += 1
+                except Violation as v:
+                    fails.append(rtc.Failure("get_async", args, "ensures", v.clause, v.detail))
+                except Hang as h:
+                    fails.append(rtc.Failure("get_async", args, "timeout", "C04-never-hangs", str(h)))
+                except BaseException as e:  # noqa
+                    fails.append(rtc.Failure("get_async", args, "exception", type(e).__name__, repr(e)))
+                if len(fails) >= 3:
+                    break
+            if len(fails) >= 3:
+                break
     return {
         "function": "dask/local.py:get_async (real code, controlled executor)",
         "bounded": True,
@@ -390,9 +467,48 @@ def sweep(tier, seed=0, with_failures=True, time_budget=None):
 def replay(native):
     args = eval(native["args_repr"])
     try:
+        if "schedule" in args:
+            run_one(tuple(args["graph"]), args["request"], args["num_workers"], args["chunksize"], args["schedule"], tuple(args["failing"]), check_invariant=False)
         all_schedules(tuple(args["graph"]), args["request"], args["num_workers"], args["chunksize"], tuple(args["failing"]), limit=400)
     except (Violation, Hang) as v:
         return {"reproduced": True, "detail": str(v)}
     except BaseException as e:  # noqa
         return {"reproduced": True, "detail": repr(e)}
     return None
+
+
+def remote_exception_sweep(tier, seed=0):
+    """C04 (multiprocessing): the re-raised exception must be an instance of the type the task raised, same message."""
+    import time
+
+    from dask.multiprocessing import remote_exception
+
+    t0 = time.time()
+    cases, fails = 0, []
+
+    def make_error(base, name="TaskError"):
+        class TaskError(base):
+            pass
+        TaskError.__name__ = name
+        return TaskError
+
+    classes = [ValueError, KeyError, LookupError, ZeroDivisionError, RuntimeError, make_error(LookupError), make_error(ValueError), make_error(Exception),
+               make_error(ArithmeticError), make_error(OSError), type("Dyn", (TypeError,), {}), type("Dyn", (IndexError,), {})]
+    for rounds in range(2):
+        for cls in classes:
+            cases += 1
+            try:
+                e = cls("boom-%d" % cases)
+                r = remote_exception(e, "traceback text")
+                msg = None
+                if not isinstance(r, cls):
+                    msg = f"re-raised exception is a {type(r).__mro__[:3]}, not an instance of the raised type {cls.__mro__[:2]}"
+                elif "boom-%d" % cases not in str(r):
+                    msg = f"message lost: {str(r)!r}"
+            except Exception as ex:  # noqa
+                msg = f"{type(ex).__name__}: {ex}"
+            if msg:
+                fails.append(rtc.Failure("remote_exception", {"class": f"{cls.__module__}.{cls.__qualname__}", "bases": [b.__name__ for b in cls.__bases__], "round": rounds}, "ensures", "C04-same-type-same-message", msg))
+    return {"function": "dask/multiprocessing.py:remote_exception (real code)", "bounded": True, "bound": {"exception classes": len(classes), "rounds": 2, "incl": "same-named classes from a factory with different bases"},
+            "cases": cases, "distinct_nontrivial": cases, "failures_found": len(fails), "wall_s": round(time.time() - t0, 2),
+            "samples": [{"native_case": {"class": "make_error.<locals>.TaskError", "bases": ["LookupError"]}}], "failures": fails[:3]}
